@@ -1,9 +1,11 @@
 package main
 
 import (
+	"bytes"
 	"encoding/binary"
 	"fmt"
 	"math"
+	"sort"
 
 	rr "github.com/youzan/ZanRedisDB/rockredis"
 	"verif/harness/internal/hx"
@@ -436,6 +438,44 @@ func generate(r *hx.Rng, worlds, n int) []cs {
 			g.add(k, H(raw))
 		}
 		g.add("DTP", fmt.Sprint(raw0(raw)), H(raw))
+	}
+	// engine range iterator semantics over collection ranges (open / closed bounds; the empty member = start key)
+	for i := 0; i < n/6; i++ {
+		dt := collTypes[r.Pick(3)]
+		tb, k := noColon(advName(r)), advName(r)
+		var keys [][]byte
+		seen := map[string]bool{}
+		addk := func(b []byte) {
+			if !seen[string(b)] {
+				seen[string(b)] = true
+				keys = append(keys, b)
+			}
+		}
+		addk(rr.VerifEncodeCollSubKey(dt, tb, k, []byte{}))
+		for j := r.Pick(6); j > 0; j-- {
+			addk(rr.VerifEncodeCollSubKey(dt, tb, k, advName(r)))
+		}
+		for j := r.Pick(4); j > 0; j-- {
+			addk(rr.VerifEncodeCollSubKey(collTypes[r.Pick(3)], tb, advName(r), advName(r)))
+		}
+		if r.Chance(0.3) {
+			addk(rr.VerifHEncodeStopKey(tb, k))
+		}
+		sort.Slice(keys, func(a, b int) bool { return bytes.Compare(keys[a], keys[b]) < 0 })
+		var lo, hi []byte
+		switch dt {
+		case rr.HashType:
+			lo, hi = rr.VerifHEncodeStartKey(tb, k), rr.VerifHEncodeStopKey(tb, k)
+		case rr.SetType:
+			lo, hi = rr.VerifSEncodeStartKey(tb, k), rr.VerifSEncodeStopKey(tb, k)
+		default:
+			lo, hi = rr.VerifZEncodeStartSetKey(tb, k), rr.VerifZEncodeStopSetKey(tb, k)
+		}
+		ks := "~"
+		if len(keys) > 0 {
+			ks = hx.HL(keys)
+		}
+		g.add("RD", fmt.Sprint([]int{0, 1, 16, 17}[r.Pick(4)]), H(lo), H(hi), ks)
 	}
 	// size limits
 	mk := int(rr.VerifConsts()["max_key_size"])
